@@ -37,12 +37,21 @@ class System(object):
     pass
 
 
+class ReplayViolation(Exception):
+  """A history that passed when it was first explored violates the lock-step oracle when it is replayed: the
+  implementation behaves differently in identical runs.  The violation is an observation like any other."""
+
+  def __init__(self, hist, v):
+    Exception.__init__(self, 'history %r violated %r during re-materialisation' % (hist, v))
+    self.hist, self.v = hist, v
+
+
 def materialize(sysm, hist):
   sysm.reset()
-  for e in hist:
+  for i, e in enumerate(hist):
     v = sysm.apply(e)
     if v is not None:
-      raise core.HarnessError('history %r violated %r during re-materialisation' % (hist, v))
+      raise ReplayViolation(tuple(hist[:i + 1]), v)
 
 
 def bfs(sysm, depth, max_violations=3, max_states=None):
@@ -58,13 +67,23 @@ def bfs(sysm, depth, max_violations=3, max_states=None):
   for d in range(depth):
     nxt = []
     for hist, key in frontier:
-      materialize(sysm, hist)
+      try:
+        materialize(sysm, hist)
+      except ReplayViolation as rv:
+        if len(stats['violations']) < max_violations:
+          stats['violations'].append((rv.v[0], rv.v[1] + ' (on a replay: the same history had passed before - identical runs differ)', list(rv.hist)))
+        continue
       if sysm.canon() != key:
         raise core.HarnessError('NONDETERMINISM: replay of %r reached %r, recorded %r' % (hist, sysm.canon(), key))
       stats['replays'] += 1
       evs = list(sysm.enabled())
       for ev in evs:
-        materialize(sysm, hist)
+        try:
+          materialize(sysm, hist)
+        except ReplayViolation as rv:
+          if len(stats['violations']) < max_violations:
+            stats['violations'].append((rv.v[0], rv.v[1] + ' (on a replay: the same history had passed before - identical runs differ)', list(rv.hist)))
+          break
         v = sysm.apply(ev)
         stats['transitions'] += 1
         if v is None:
